@@ -319,10 +319,58 @@ fn c10_scenario(variant: u8) -> Result<(), String> {
     if seen != 3 { return Err(format!("{}: {} redeemers emitted for 3 script uses", tag, seen)); }
     Ok(())
 }
+/// withdrawals: one Plutus-script reward account among key / native-script accounts, inserted in every order; the reward
+/// redeemer must index the reward accounts in the ledger's key order of the withdrawals map (network id, script
+/// credentials before key credentials, credential hash), whatever the insertion order
+fn c10_withdrawals(order: &[usize], script_hash_byte: u8) -> Result<(), String> {
+    let tag = format!("withdrawal order {:?} script {:02x}", order, script_hash_byte);
+    let mut tb = TransactionBuilder::new(&config(true));
+    let mut ib = TxInputsBuilder::new();
+    ib.add_key_input(&kh(1), &TransactionInput::new(&TransactionHash::from([1u8; 32]), 0), &Value::new(&bn(500_000_000)));
+    tb.set_inputs(&ib);
+    let wscript = PlutusScript::new(vec![3u8, 3, script_hash_byte]);
+    let marker = 44u8;
+    // accounts: 0 = key hash 0x10.., 1 = the Plutus script, 2 = key hash 0xf0.., 3 = native script
+    let ns = native_script(77);
+    let accounts: Vec<RewardAddress> = vec![
+        RewardAddress::new(0, &Credential::from_keyhash(&Ed25519KeyHash::from([0x10u8; 28]))),
+        RewardAddress::new(0, &Credential::from_scripthash(&wscript.hash())),
+        RewardAddress::new(0, &Credential::from_keyhash(&Ed25519KeyHash::from([0xf0u8; 28]))),
+        RewardAddress::new(0, &Credential::from_scripthash(&ns.hash())),
+    ];
+    let mut wb = WithdrawalsBuilder::new();
+    for &k in order {
+        let r = match k {
+            1 => wb.add_with_plutus_witness(&accounts[1], &bn(5), &PlutusWitness::new_without_datum(&wscript, &redeemer_with_marker(&RedeemerTag::new_reward(), marker))),
+            3 => wb.add_with_native_script(&accounts[3], &bn(6), &NativeScriptSource::new(&ns)),
+            _ => wb.add(&accounts[k], &bn(7)),
+        };
+        r.map_err(|_| format!("{}: add failed", tag))?;
+    }
+    tb.set_withdrawals_builder(&wb);
+    tb.set_fee(&bn(2_000_000));
+    let tx = tb.build_tx_unsafe().map_err(|_| format!("{}: build failed", tag))?;
+    let reds = tx.witness_set().redeemers().ok_or(format!("{}: no redeemers emitted", tag))?;
+    if reds.len() != 1 { return Err(format!("{}: {} redeemers for one script withdrawal", tag, reds.len())); }
+    let idx = u64::from(reds.get(0).index()) as usize;
+    // independent expectation: ledger key order = (network, script credentials first, hash bytes)
+    let key = |a: &RewardAddress| -> (u8, u8, Vec<u8>) {
+        let c = a.payment_cred();
+        match (c.to_scripthash(), c.to_keyhash()) { (Some(h), _) => (0, 0, h.to_bytes()), (_, Some(h)) => (0, 1, h.to_bytes()), _ => (0, 2, vec![]) }
+    };
+    let mut present: Vec<&RewardAddress> = order.iter().map(|&k| &accounts[k]).collect();
+    present.sort_by(|a, b| key(a).cmp(&key(b)));
+    let expect = present.iter().position(|a| a.to_address().to_bytes() == accounts[1].to_address().to_bytes()).unwrap();
+    if idx != expect { return Err(format!("{}: reward redeemer index {} but the script account is number {} in reward-account order", tag, idx, expect)); }
+    Ok(())
+}
+
 pub fn c10_pointers<S: Src>(_s: &mut S) {
     let mut failures = Vec::new();
     for v in 0..6u8 { if let Err(e) = c10_scenario(v) { failures.push(e); } }
-    assert!(failures.is_empty(), "{} of 6 pointer scenarios violate the property; first: {}", failures.len(), failures[0]);
+    let orders: [&[usize]; 12] = [&[1], &[0, 1], &[1, 0], &[2, 1], &[1, 2], &[0, 1, 2], &[2, 1, 0], &[1, 2, 0], &[3, 1], &[1, 3], &[0, 3, 2, 1], &[2, 0, 1, 3]];
+    for o in orders.iter() { for sb in [0u8, 1, 2, 3, 4, 5] { if let Err(e) = c10_withdrawals(o, sb) { failures.push(e); } } }
+    assert!(failures.is_empty(), "{} of {} pointer scenarios violate the property; first: {}", failures.len(), 6 + 72, failures[0]);
 }
 
 // ---------------------------------------------------------------- C01 / C03: struct-level codecs on crafted inputs
